@@ -1,6 +1,8 @@
 import GoLevel.Proofs.MemDBConc
 import GoLevel.Proofs.MemArrIter
 import GoLevel.Proofs.MemArrGrow
+import GoLevel.Proofs.MemArrConcMain
+import GoLevel.Proofs.MemArrGen
 import GoLevel.Proofs.Key
 /-!
 # Property C14 — the in-memory table (`leveldb/memdb`)
@@ -26,10 +28,12 @@ The array encoding: `GoLevel/Model/MemArr.lean` transcribes `memdb.go` over the 
 `memarr_simulates_ideal` relates it to the ideal skip list through the representation relation `MemArr.Rep`
 (`GoLevel/Proofs/MemArrBasic.lean`), `memarr_refines_map` composes that with `memdb_refines_map`.
 
-What the sequential theorems do not cover (and the harness does not generate): `Next` on an iterator whose
-current node has been deleted (the Go code follows the dead node's stale pointer; the ideal list has no dead
-nodes) and `Next`/`Prev` on an iterator positioned before a `Reset` (the Go code indexes `nodeData` with a
-stale node index and may panic) — moves interleaved with `Put` are covered by `concurrent_readers_partial`.
+After `Reset` (generation counter `gen`, repairs of D31 and D32) and after `Delete` of the node under an iterator:
+`iterator_after_reset` gives the sorted-map reading of every move sequence of an iterator positioned before the last
+`Reset` (arrays and ideal list with generations), `concurrent_readers` covers every interleaving of one writer doing
+`Put`/`Delete`/`Reset` with readers and iterators at the array level (dead nodes included).  Only the array-level model
+has dead nodes: the ideal list's `Next` from a deleted key ends the walk, the code (and `MemArr`) follows the dead
+node's pointer; the harness sends those moves to the array-level model only.
 -/
 namespace GoLevel.C14
 open GoLevel.MemDB
@@ -212,12 +216,10 @@ example : (MemArr.exec bytesCompare MemArr.DB.new [.put [1] [10] 1, .put [2] [20
 
 /-! ## readers and iterators interleaved with a writer -/
 
-/-- The full statement: arbitrary writer operations (`Put`, `Delete`, `Reset`) interleaved with the moves of
-an iterator.  NOT proved, and not provable from this model in a way that would transfer to the code: after
-`Delete` of the node under an iterator the Go `Next` follows the unlinked node's stale pointer, after `Reset`
-it indexes `nodeData` with a stale node index (possible panic) and `Prev` compares with a key slice whose
-bytes have been overwritten; the ideal list has no unlinked nodes.  A pointer-level model of `nodeData` is
-what is missing. -/
+/-- The statement over the IDEAL list: arbitrary writer operations (`Put`, `Delete`, `Reset`) interleaved with the moves
+of an iterator.  Kept as a statement only: the ideal list has no unlinked nodes and no generations, so it does not
+describe what the code does after `Delete` of the node under an iterator or after `Reset`.  The property is proved at
+full strength over the array-level model, where those exist: `concurrent_readers` below. -/
 def concurrent_readers_full (cmp : Cmp) : Prop :=
   ∀ (st lm : Option Bytes) (evs : List Ev),
     (∀ e ∈ evs, match e with | .put _ _ h => 1 ≤ h ∧ h ≤ Gen.tMaxHeight | _ => True) →
@@ -299,6 +301,122 @@ whereas the Go code would continue from the dead node — these histories are ou
 example : cyield bytesCompare (cexec bytesCompare {} [Ev.put [1] [] 1, .put [2] [] 1, .move .first, .delete [1]]) .next = none := by
   decide
 
+/-! ## iterator moves after `Reset` (generation counter: repairs of D31 and D32) -/
+
+/-- On the table reached by ANY operation sequence (`Reset`s included), an iterator that was positioned in an older
+generation (`node ≠ 0`, `gen ≠ DB.gen` — every iterator positioned before the last `Reset` is such: generations only
+grow, `concurrent_readers` keeps `it.gen ≤ DB.gen`) answers every sequence of moves like the cursor over the range-filtered
+pairs of the CURRENT table that is first moved by `staleStep`: `Next` finds it exhausted at the end (a following `Prev`
+goes to the last pair), `Prev` finds it exhausted at the start (a following `Next` goes to the first pair), `First`/
+`Last`/`Seek` are absolute.  Nothing of the old generation is read: no node index, no key bytes.  An iterator that is not
+positioned continues as the cursor at the start/end, whatever its generation.  The same holds for the ideal list with
+generations (`MemDB.GIter`, the model the driver runs). -/
+theorem iterator_after_reset (hc : LawfulCmp cmp) (ops : List Op) (hv : ∀ op ∈ ops, op.valid) :
+    ∃ a, MemArr.exec cmp MemArr.DB.new ops = some a ∧
+      (∀ ai : MemArr.Iter, ai.node ≠ 0 → ai.gen ≠ a.gen → ∀ (c : Call Bytes) (cs : List (Call Bytes)),
+        MemArr.Iter.run cmp a ai (c :: cs) =
+          some (let S := SMap.slice cmp ai.start ai.limit (SMap.exec cmp [] ops)
+                Cursor.get S (staleStep S (SMap.ge cmp) c) ::
+                  Cursor.run S (SMap.ge cmp) (staleStep S (SMap.ge cmp) c) cs)) ∧
+      (∀ ai : MemArr.Iter, ai.node = 0 → ∀ cs : List (Call Bytes),
+        MemArr.Iter.run cmp a ai cs =
+          some (Cursor.run (SMap.slice cmp ai.start ai.limit (SMap.exec cmp [] ops)) (SMap.ge cmp)
+            (if ai.forward then .eoi else .soi) cs)) ∧
+      (∀ (g : Nat) (x : GIter) (k : Bytes), x.it.node = some k → x.gen ≠ g →
+        ∀ (c : Call Bytes) (cs : List (Call Bytes)),
+        GIter.run cmp (exec cmp DB.empty ops) g x (c :: cs) =
+          (let S := SMap.slice cmp x.it.start x.it.limit (SMap.exec cmp [] ops)
+           Cursor.get S (staleStep S (SMap.ge cmp) c) ::
+             Cursor.run S (SMap.ge cmp) (staleStep S (SMap.ge cmp) c) cs)) := by
+  obtain ⟨_, h2, _, _⟩ := memdb_refines_map hc ops hv
+  obtain ⟨hinv, _⟩ := exec_inv hc ops DB.empty (inv_empty cmp) hv
+  obtain ⟨a, ix, e, r⟩ := MemArr.exec_sim hc ops (MemArr.rep_new (cmp := cmp) (fun _ => 0)) hv
+  refine ⟨a, e, ?_, ?_, ?_⟩
+  · intro ai hne hg c cs
+    rw [MemArr.iter_run_stale hc r ai hne hg c cs, h2]
+  · intro ai h0 cs
+    rw [MemArr.iter_run_unpositioned hc r ai h0 cs, h2]
+  · intro g x k hn hg c cs
+    rw [GIter.run_stale hc hinv g x hn hg c cs, h2]
+
+/-- an iterator over `[[2], [9])` positioned on `[3]`; `Reset`; `Put [1]`, `[4]`, `[5]`: `Next` is exhausted, the `Prev`
+after it goes to the last pair `[5]`; in the same situation `Prev` is exhausted and the `Next` after it goes to the
+first pair of the range, `[4]` -/
+example :
+    let evs : List MemArr.Ev :=
+      [.op (.put [3] [30] 2), .op (.put [7] [70] 1), .move (.seek [3]), .op .reset, .op (.put [1] [10] 1),
+       .op (.put [4] [40] 1), .op (.put [5] [50] 2)]
+    (MemArr.cexec bytesCompare ⟨MemArr.DB.new, { start := some [2], limit := some [9] }⟩ evs).bind (fun s =>
+      (MemArr.Iter.run bytesCompare s.db s.it [.next, .prev, .next]).bind fun o1 =>
+      (MemArr.Iter.run bytesCompare s.db s.it [.prev, .next, .prev]).map fun o2 => [o1, o2]) =
+    some [[none, some ([5], [50]), none], [none, some ([4], [40]), none]] ∧
+    (MemArr.cexec bytesCompare ⟨MemArr.DB.new, { start := some [2], limit := some [9] }⟩ evs).map
+      (fun s => [s.it.node, s.it.gen, s.db.gen]) = some [16, 0, 1] := by decide +kernel
+
+/-! ## one writer (`Put`, `Delete`, `Reset`), readers and iterators: the array-level interleaving model -/
+
+/-- Interleaving model `MemArr.cexec` (`Model/MemArr.lean`): every public method and every iterator movement is one
+atomic step (this is what `mu` gives — ASSUMED, see `code_methods_atomic`); an execution observed from one iterator over
+`[st, lm)` is any interleaving of operations (`op`: the writer's `Put` with any height `randHeight` can draw, `Delete`,
+`Reset`; `Get`/`Find`/`Contains`/`Len`/`Size` of any reader; steps of other iterators do not change the table) and moves
+of the observed iterator, on the arrays as the code has them (dead nodes, generations).  From `New` and a fresh
+iterator, for EVERY such history:
+* no step panics — the whole history runs (`some s`), and so does any further step of any participant;
+* every pair a move yields was put since the last `Reset` with exactly that value (`MemArr.putsOf`; by
+  `concurrent_puts_were_put` some `Put k v` is in the history) and lies in the range.  The pair may have been deleted
+  or overwritten in the meantime: an iterator sitting on a node that is deleted afterwards walks on through the dead
+  node's pointer and may land on — and yield — further deleted nodes; what it yields is the last value each had;
+* after a move that yielded `k1`, whatever the writer and the other readers do next (`ws`): if nobody resets the table,
+  `Next` yields a key strictly above `k1` and `Prev` a key strictly below `k1` (or nothing); if somebody resets it, `Next`
+  and `Prev` both find the iterator exhausted (D31/D32), whatever has been put since.
+Before the repair of D32 the range clause was false for `Prev` after `Reset`: `Prev` searched with the stale key
+slice and `fill(true, false)` does not test the limit — `New; Put b; it=[nil,m); First; Reset; Put z; Put y; Prev`
+yielded `y` (replayed on the code of commit 795d208). -/
+theorem concurrent_readers (hc : LawfulCmp cmp) (st lm : Option Bytes) (evs : List MemArr.Ev)
+    (hv : ∀ e ∈ evs, e.valid) :
+    ∃ s, MemArr.cexec cmp ⟨MemArr.DB.new, { start := st, limit := lm }⟩ evs = some s ∧
+      (∀ e : MemArr.Ev, e.valid → (MemArr.cstep cmp s e).isSome) ∧
+      (∀ c, ∃ r, MemArr.cyield cmp s c = some r ∧
+        ∀ k v, r = some (k, v) → (k, v) ∈ MemArr.putsOf evs ∧ inR cmp st lm k = true) ∧
+      (∀ c1 k1 v1, MemArr.cyield cmp s c1 = some (some (k1, v1)) →
+        ∀ ws : List MemArr.Ev, (∀ e ∈ ws, e.valid ∧ e.isMove = false) →
+        ∃ s1 s2, MemArr.cstep cmp s (.move c1) = some s1 ∧ MemArr.cexec cmp s1 ws = some s2 ∧
+          (if ws.any MemArr.Ev.isReset then
+            MemArr.cyield cmp s2 .next = some none ∧ MemArr.cyield cmp s2 .prev = some none
+          else
+            (∀ k2 v2, MemArr.cyield cmp s2 .next = some (some (k2, v2)) → cmp k1 k2 = .lt) ∧
+            (∀ k2 v2, MemArr.cyield cmp s2 .prev = some (some (k2, v2)) → cmp k2 k1 = .lt))) := by
+  obtain ⟨s, e, h⟩ := MemArr.cexec_ok (st := st) (lm := lm) hc evs (MemArr.cinvA_init cmp st lm) hv
+  refine ⟨s, e, ?_, ?_, ?_⟩
+  · intro ev hev
+    obtain ⟨s', e', _⟩ := MemArr.cstep_ok (st := st) (lm := lm) hc h ev hev
+    simp [e']
+  · intro c; exact MemArr.cyield_ok hc h c
+  · intro c1 k1 v1 hy ws hws; exact MemArr.corder_ok hc h c1 hy ws hws
+
+/-- the pairs `concurrent_readers` speaks of were put by events of the history -/
+theorem concurrent_puts_were_put (evs : List MemArr.Ev) (k v : Bytes) (h : (k, v) ∈ MemArr.putsOf evs) :
+    ∃ ht, MemArr.Ev.op (.put k v ht) ∈ evs := by
+  rcases MemArr.putsOf_sub evs [] (k, v) h with h | h
+  · simp at h
+  · exact h
+
+/-- an iterator sits on `[2]`; `[2]` and its successor `[3]` are deleted, `[2,5]` is put: `Next` walks through the dead
+node `[2]` to the dead node `[3]` and yields the deleted pair (it was put), then reaches `[4]`; after a `Reset` and new
+puts, `Next` and `Prev` are exhausted -/
+example :
+    let evs : List MemArr.Ev :=
+      [.op (.put [1] [10] 1), .op (.put [2] [20] 2), .op (.put [3] [30] 1), .op (.put [4] [40] 3), .move (.seek [2]),
+       .op (.delete [2]), .op (.delete [3]), .op (.put [2, 5] [25] 1)]
+    (MemArr.cexec bytesCompare ⟨MemArr.DB.new, {}⟩ evs).bind (fun s =>
+      (MemArr.cexec bytesCompare s [.move .next, .move .next]).bind fun s2 =>
+      (MemArr.cexec bytesCompare s2 [.op .reset, .op (.put [9] [90] 1)]).map fun s3 =>
+        [MemArr.cyield bytesCompare s .next, MemArr.cyield bytesCompare s .prev,
+         MemArr.cyield bytesCompare s2 .prev, MemArr.cyield bytesCompare s3 .next,
+         MemArr.cyield bytesCompare s3 .prev]) =
+    some [some (some ([3], [30])), some (some ([1], [10])), some (some ([2, 5], [25])), some none, some none] := by
+  decide +kernel
+
 /-- The atomicity assumed by `concurrent_readers_partial`, as far as the source shows it: the extractor reads
 off `memdb.go` that every public `DB` method and every iterator movement touches the skip-list arrays only
 between taking `mu` and releasing it — one critical section per call (`Gen.memMethodsAtomic`, regenerated
@@ -312,5 +430,6 @@ def C14.theorems : List String :=
   ["GoLevel.C14.lawful_bytewise", "GoLevel.C14.inv_preserved", "GoLevel.C14.memdb_refines_map",
    "GoLevel.C14.memdb_refines_map_bytewise", "GoLevel.C14.concurrent_readers_partial",
    "GoLevel.C14.code_methods_atomic", "GoLevel.C14.memarr_simulates_ideal", "GoLevel.C14.memarr_refines_map",
-   "GoLevel.C14.memarr_refines_map_bytewise", "GoLevel.C14.memarr_kvdata_append_only"]
+   "GoLevel.C14.memarr_refines_map_bytewise", "GoLevel.C14.memarr_kvdata_append_only", "GoLevel.C14.concurrent_readers",
+   "GoLevel.C14.concurrent_puts_were_put", "GoLevel.C14.iterator_after_reset"]
 end GoLevel
